@@ -169,6 +169,25 @@ def encode(ops):
     return s
 
 
+def decode(script):
+    """inverse of encode (replay files carry the script only)"""
+    ops, i = [], 0
+    names = {2: "pull", 4: "reg", 5: "loop"}
+    while i < len(script):
+        t = script[i]
+        if t == 1 and i + 2 < len(script) + 1:
+            n = script[i + 2]
+            ops.append(("send", script[i + 1], script[i + 3:i + 3 + n])); i += 3 + n
+        elif t == 3:
+            n = script[i + 1]
+            ops.append(("feed", script[i + 2:i + 2 + n])); i += 2 + n
+        elif t in names:
+            ops.append((names[t], script[i + 1])); i += 2
+        else:
+            break
+    return ops
+
+
 def gen_tx(rng, cap, c):
     """sendmsg / pull interleavings on the transmit side only; every DLCI that indexes a queue, incl. 0, 125, 126"""
     big = rng.chance(1, 4)
@@ -375,9 +394,18 @@ def oracle(ctx, cs, obs, cap, c):
     tags = cs["tags"]
     small = dict(kind=kind, script=cs["script"] if len(cs["script"]) <= 400 else cs["script"][:400] + ["...(%d ints)" % len(cs["script"])],
                  tags=sorted(tags))
-    full = dict(kind=kind, script=cs["script"], tags=sorted(tags))
+    full = dict(kind=kind, script=cs["script"], tags=sorted(tags), regs=list(cs["regs"]))
+    if "items" in cs:
+        full["items"] = [list(it) for it in cs["items"]]
+    if "echo" in cs:
+        full["echo"] = cs["echo"]
 
     def fail(what, key, expected=None, observed=None):
+        # the framework keeps at most 50 failures: keep a few per key so that no key can crowd out another
+        n = ctx.hist.get("oracle_fail:" + key, 0) + ctx.hist.get("oracle_fail_more:" + key, 0)
+        if n >= 6:
+            ctx.count("oracle_fail_more:" + key)
+            return
         ctx.oracle_fail(what, full if len(cs["script"]) <= 6000 else small, key=key, expected=expected, observed=observed)
 
     def defect_key(default):
@@ -452,9 +480,7 @@ def check_stream(items, regs, msgs, cap):
     allowed, after_over, prev_over = [], [], False
     for it in items:
         if it[0] == "noise":
-            if it[1]:
-                prev_over = False        # noise is to be ignored: the frame after it is not "the one that follows"
-            continue
+            continue                     # to be ignored: the next frame still is "the one frame that follows"
         if it[0] == "good":
             if it[1] in regs:
                 allowed.append((it[1], it[2]))
@@ -494,17 +520,29 @@ def run(ctx):
         import json
         with open(ctx.replay) as f:
             rp = json.load(f)
-        sc = rp.get("case", {}).get("script")
-        cases = [dict(kind=rp["case"].get("kind", "replay"), ops=[], regs=[], tags=set(rp["case"].get("tags", [])), script=sc)] if isinstance(sc, list) and all(isinstance(x, int) for x in sc) else []
-        ctx.note("replay: %d script(s) from %s (correspondence only; the oracle needs the generated case structure)" % (len(cases), ctx.replay))
+        rc = rp.get("case", {}) if isinstance(rp.get("case"), dict) else {}
+        sc = rc.get("script")
+        cases = []
+        if isinstance(sc, list) and all(isinstance(x, int) for x in sc):
+            cs = dict(kind=rc.get("kind", "replay"), ops=decode(sc), regs=rc.get("regs", []), tags=set(rc.get("tags", [])), script=sc)
+            if "items" in rc:
+                cs["items"] = [tuple(it) for it in rc["items"]]
+            if "echo" in rc:
+                cs["echo"] = rc["echo"]
+            if cs["kind"] == "rx" and "items" not in cs:
+                cs["kind"] = "replay"
+            cases = [cs]
+        ctx.note("replay: %d script(s) from %s" % (len(cases), ctx.replay))
     else:
         cases = gen_cases(ctx, cap, c)
     lines = ["w_c06_script " + " ".join(map(str, cs["script"])) for cs in cases]
     impl, crashes = run_impl(ctx, binp, lines)
-    for k, txt in crashes.items():
+    for k, txt in sorted(crashes.items())[:6]:
         cs = cases[k]
         ctx.oracle_fail("harness crash / sanitizer report / panic on this script: " + txt[-600:],
                         dict(kind=cs["kind"], script=cs["script"][:6000], tags=sorted(cs["tags"])), key="c06-crash")
+    if len(crashes) > 6:
+        ctx.count("oracle_fail_more:c06-crash", len(crashes) - 6)
     idx = list(range(len(cases)))
     ctx.correspond("sercomm-script", "Sercomm", idx, lambda k: lines[k], lambda k: impl[k],
                    show=lambda k: dict(kind=cases[k]["kind"], script=cases[k]["script"][:3000]))
